@@ -76,6 +76,10 @@ type groupResult struct {
 	Err      string   `json:"err,omitempty"`
 	Rcodes   string   `json:"rcodes,omitempty"`
 	MS       int64    `json:"ms"`
+
+	// Effective-value probe only.
+	SizeBelowConfigured bool   `json:"size_below_configured,omitempty"`
+	Probe               string `json:"probe,omitempty"`
 }
 
 func (g *groupResult) ok() bool {
@@ -419,6 +423,12 @@ type scriptParams struct {
 	DNSCheckOK   bool   // check.kv.type is "cache": the DNS-check name must be answered
 	ProviderName string
 	ProviderPK   string
+
+	// CfgUDPSize is dns.max_udp_response_size as written in the file under
+	// test; SizeProbe is false when a mutated field legitimately limits large
+	// datagrams (socket buffer sizes, 1ns durations).
+	CfgUDPSize int64
+	SizeProbe  bool
 }
 
 // runTraffic runs the fixed script against every server of the configuration.
@@ -465,6 +475,21 @@ func runTraffic(servers []liveServer, sp scriptParams, hopeless func() bool) (gr
 					}
 					add("dns-udp-burst", "allowlisted", "all", udpExchanger(srcAllowlisted, addr), burst)
 					add("dns-udp-big", "allowlisted", "all", udpExchanger(srcAllowlisted, addr), []query{{bigHost, dns.TypeTXT, 4096}})
+					if sp.SizeProbe && !failed {
+						for _, pr := range []struct {
+							host   string
+							chunks int
+							edns   uint16
+						}{{midHost, midTXTChunks, 1232}, {bigHost, bigTXTChunks, 4096}} {
+							g := sizeProbe(addr, s.Name, pr.host, pr.chunks, pr.edns, sp.CfgUDPSize, hopeless)
+							queries += g.Sent + g.Retried
+							groups = append(groups, g)
+							if !g.ok() || g.SizeBelowConfigured || hopeless() {
+								failed = true
+								break
+							}
+						}
+					}
 					add("dns-tcp", "allowlisted", "all", streamExchanger(srcAllowlisted, addr, nil), []query{
 						{name("a2"), dns.TypeA, 0}, {name("a2"), dns.TypeAAAA, 0}, {name("t2"), dns.TypeTXT, 0}, {bigHost, dns.TypeTXT, 0},
 					})
@@ -531,4 +556,105 @@ type liveServer struct {
 	Name  string
 	Proto string
 	Addrs []string
+}
+
+// expectedTXTSize is the size on the wire of the answer the stub upstream
+// gives for a chunked name, as the server under test would send it over UDP
+// (compressed, with an OPT record).
+func expectedTXTSize(host string, chunks int, edns uint16) int {
+	m := new(dns.Msg)
+	m.SetQuestion(host, dns.TypeTXT)
+	m.Response = true
+	for i := 0; i < chunks; i++ {
+		m.Answer = append(m.Answer, &dns.TXT{
+			Hdr: dns.RR_Header{Name: host, Rrtype: dns.TypeTXT, Class: dns.ClassINET, Ttl: 300},
+			Txt: []string{strings.Repeat("x", 200)},
+		})
+	}
+	m.SetEdns0(edns, false)
+	m.Compress = true
+	return m.Len()
+}
+
+const sizeMargin = 64
+
+// sizeProbe is the effective-value probe of dns.max_udp_response_size: a UDP
+// query whose complete answer fits both the advertised EDNS buffer and the
+// configured maximum must come back complete.  It is evaluated only when the
+// value written in the file leaves the margin; otherwise the group only
+// records what came back.
+func sizeProbe(addr, server, host string, chunks int, edns uint16, cfg int64, hopeless func() bool) (g groupResult) {
+	need := expectedTXTSize(host, chunks, edns) + sizeMargin
+	g = groupResult{Group: fmt.Sprintf("dns-udp-size-%d", edns), Server: server, Addr: addr, Client: "allowlisted", Require: "all", Sent: 1}
+	t0 := time.Now()
+	defer func() { g.MS = time.Since(t0).Milliseconds() }()
+	applies := cfg >= int64(need) && int(edns) >= need
+	if !applies {
+		g.Require = "none"
+	}
+	var last *dns.Msg
+	for try, wait := range []time.Duration{firstWait, retryWait} {
+		if try > 0 {
+			if !applies || hopeless() {
+				break
+			}
+			g.Retried++
+		}
+		resp, err := udpOne(srcAllowlisted, addr, query{host, dns.TypeTXT, edns}, wait)
+		if err != nil {
+			g.Err = err.Error()
+		}
+		if resp == nil {
+			continue
+		}
+		last = resp
+		if !resp.Truncated && len(resp.Answer) == chunks {
+			break
+		}
+	}
+	if last == nil {
+		g.Lost = []string{"#0 TXT " + host}
+		return g
+	}
+	g.Answered = 1
+	g.Rcodes = dns.RcodeToString[last.Rcode]
+	g.Probe = fmt.Sprintf("edns=%d configured_max=%d needed<=%d got: tc=%v answers=%d/%d size=%d", edns, cfg, need, last.Truncated, len(last.Answer), chunks, last.Len())
+	if applies && last.Rcode == dns.RcodeSuccess && (last.Truncated || len(last.Answer) != chunks) {
+		g.SizeBelowConfigured = true
+	}
+	return g
+}
+
+// udpOne sends one query from a fresh socket and returns the matching response.
+func udpOne(src, dst string, q query, wait time.Duration) (*dns.Msg, error) {
+	d := net.Dialer{LocalAddr: localAddr("udp", src), Timeout: dialWait}
+	c, err := d.Dial("udp", dst)
+	if err != nil {
+		return nil, err
+	}
+	defer c.Close()
+	m := q.msg()
+	b, err := m.Pack()
+	if err != nil {
+		return nil, err
+	}
+	if _, err = c.Write(b); err != nil {
+		return nil, err
+	}
+	_ = c.SetReadDeadline(time.Now().Add(wait))
+	buf := make([]byte, 65535)
+	for {
+		n, rerr := c.Read(buf)
+		if rerr != nil {
+			if ne, ok := rerr.(net.Error); ok && ne.Timeout() {
+				return nil, nil
+			}
+			return nil, rerr
+		}
+		resp := new(dns.Msg)
+		if resp.Unpack(buf[:n]) != nil || resp.Id != m.Id {
+			continue
+		}
+		return resp, nil
+	}
 }
